@@ -88,8 +88,8 @@ Section RandomGen.
   Definition draw_name (t : tape) : str * tape :=
     let c := fst (next t) in
     let t1 := snd (next t) in
-    let k := Z.to_nat (fst (next t1)) in
     let t2 := snd (next t1) in
+    let k := Z.to_nat (Z.min (fst (next t1)) (zlen t2)) in      (* at most what is left of the tape *)
     (c :: firstn k t2, skipn k t2).
   Definition new_random_name (t : tape) : str * tape := draw_name t.
 
